@@ -54,6 +54,18 @@ c("c03e_no_dedup", ["C03.e2", "C20/C03.e2"], "try_accept_row no longer consults 
   [("src/command/handlers/query/streaming/response_writer.rs",
     "            if !self.seen_ids.insert(id) {\n                return false;\n            }",
     "            let _ = id;")])
+c("c03i_unsigned_pending_counter", ["C03.i"], "FlowMetrics::pending_batches is an unsigned atomic again",
+  [("src/engine/core/read/flow/metrics.rs", "    pending_batches: AtomicI64,", "    pending_batches: AtomicU64,"),
+   ("src/engine/core/read/flow/metrics.rs", "        self.pending_batches.load(Ordering::Relaxed).max(0) as u64", "        self.pending_batches.load(Ordering::Relaxed)"),
+   ("src/engine/core/read/flow/metrics.rs", "        if pending <= 0 {\n            return;\n        }\n        let pending = pending as u64;\n", "")])
+c("c02f_uniq_key_without_uid", ["C02.f"], "CandidateZone::uniq keys by (zone_id, segment_id) only",
+  [("src/engine/core/zone/candidate_zone.rs", """            let key = (
+                zone.zone_id,
+                zone.segment_id.clone(),
+                zone.uid().map(str::to_string),
+            );""", "            let key = (zone.zone_id, zone.segment_id.clone());")])
+c("c02g_no_uid_fallback", ["C02.g"], "ZoneHydrator groups only uid-tagged zones",
+  [("src/engine/core/zone/zone_hydrator.rs", "            if let Some(uid) = zone.uid().or(fallback_uid.as_deref()) {", "            let _ = &fallback_uid;\n            if let Some(uid) = zone.uid() {")])
 c("c04a_insert_front", ["C04.a"], "memtable inserts new events at the front of the context bucket",
   [("src/engine/core/memory/memtable.rs",
     "            .or_default()\n            .push(event);",
